@@ -314,7 +314,8 @@ def workload(ctx, lentil):
                 continue                                  # the probe has recorded the refusal
             if f_out is not f:
                 # (an extended-precision product rounded into a complex128 buffer: the same values to double rounding)
-                same_vals = bool(np.allclose(buf, fresh, rtol=0, atol=8 * rm.EPS * max(float(np.max(np.abs(fresh))), 1e-300)))
+                # (yardstick: the rounding of a double-precision evaluation of the sum, not the size of a result that may have cancelled)
+                same_vals = bool(np.allclose(buf, fresh, rtol=0, atol=rm.dft_tol(np.asarray(f), ar, ac, 0.0, bool(unitary))))
             else:
                 same_vals = np.array_equal(buf, fresh)
             ctx.check(res is buf and same_vals, 'out=same', 'dft2|out-values',
